@@ -74,10 +74,12 @@ MX_PREFIXES = {
             "mx_efield_singular_decomposition", "mx_efield_regular_symmetric", "mx_mfield_regular_symmetric",
             "mx_mfield_regular_closed_form", "mx_mfield_singular_closed_form"),
     # C07 (c): boundary assembler on two disjoint grids vs Galerkin-tested traced potential
-    "C07": ("mx_two_mfield_is_minus_tested_potential", "mx_two_efield_is_minus_tested_potential_minus_remainder"),
+    "C07": ("mx_two_mfield_is_minus_tested_potential", "mx_two_efield_is_minus_tested_potential_minus_remainder",
+            "mx_potential_efield_segment_closed_form", "mx_potential_mfield_segment_closed_form"),
     # C08 (d): traced potentials / far fields = closed-form kernel sums
     "C08": ("mx_potential_efield_closed_form", "mx_potential_mfield_closed_form", "mx_potential_efield_far_field_closed_form",
-            "mx_potential_mfield_far_field_closed_form"),
+            "mx_potential_mfield_far_field_closed_form", "mx_potential_efield_segment_closed_form",
+            "mx_potential_mfield_segment_closed_form"),
     # C13: Laplace-Beltrami local blocks
     "C13": ("sparse_lb_",),
 }
